@@ -381,6 +381,23 @@ static void rm_queue_one(struct owner *w, int k)
 	w->nq++;
 }
 
+/* an older, idle registered defer thread: the reclaimer's decision to sleep must take EVERY registered
+ * queue into account, not only the first or the last one on its list */
+static int rm_idle_registered, rm_idle_stop;
+static void *reclaimer_mode_idle_main(void *arg)
+{
+	struct owner *w = arg;
+	vp_pin(w->idx);
+	if (rcu_defer_register_thread())
+		vp_violation("defer-register-failed", "cfg=%s (idle thread)", cfgname);
+	VP_STORE(rm_idle_registered, 1);
+	while (!VP_LOAD(rm_idle_stop))
+		usleep(1000);
+	rcu_defer_unregister_thread();
+	phase_of[w->idx] = "done";
+	return NULL;
+}
+
 static uint64_t rm_rounds, rm_in_gp_window, rm_served;
 static void *reclaimer_mode_main(void *arg)
 {
@@ -509,11 +526,18 @@ int main(int argc, char **argv)
 	int reclaimer_mode = !strcmp(vp_arg("mode", "mixed"), "reclaimer");
 	if (reclaimer_mode) {
 		vp_user_hook = rm_hook;
-		n_q = 1;
+		n_q = 2;	/* owner 0: registered first, idle; owner 1: the only thread that queues */
+		pthread_create(&own[0].tid, NULL, reclaimer_mode_idle_main, &own[0]);
+		while (!VP_LOAD(rm_idle_registered))
+			usleep(100);
+		pthread_create(&own[1].tid, NULL, reclaimer_mode_main, &own[1]);
+		pthread_join(own[1].tid, NULL);
+		VP_STORE(rm_idle_stop, 1);
+		pthread_join(own[0].tid, NULL);
 	}
-	for (int i = 0; i < n_q; i++)
-		pthread_create(&own[i].tid, NULL, reclaimer_mode ? reclaimer_mode_main : queuer_main, &own[i]);
-	for (int i = 0; i < n_q; i++)
+	for (int i = 0; i < n_q && !reclaimer_mode; i++)
+		pthread_create(&own[i].tid, NULL, queuer_main, &own[i]);
+	for (int i = 0; i < n_q && !reclaimer_mode; i++)
 		pthread_join(own[i].tid, NULL);
 	VP_STORE(stop_flag, 1);
 	for (int i = 0; i < n_readers; i++)
